@@ -11,7 +11,7 @@ from rtc import gen, driver, cases        # noqa: E402
 
 def families(tier, seed):
     out = []
-    seeds = [seed] if tier == "quick" else [seed, seed + 1, seed + 2, seed + 3]
+    seeds = [seed] if tier == "quick" else [seed + i for i in range(10)]
     for sd in seeds:
         for tag, feats, ps in gen.c16_cases(sd):
             dt = feats.get("dt", 0.05)
